@@ -15,6 +15,8 @@ func genHeapCode(repo string) (string, error) {
 		Funcs: []string{"swap", "up", "down", "fix", "build",
 			"Slice.Push", "Slice.Pop", "Slice.Peek", "Slice.Len", "Slice.Remove", "Slice.Fix"},
 		InOut: true,
+		// [stable] renaming the unexported field cmp does not rename Slice_cmp / set_Slice_cmp in the theorem statements
+		Expect: map[string][]ExpectField{"Slice": {{"Values", "[]T"}, {"cmp", "func(T, T) bool"}}},
 	})
 	if err != nil {
 		return "", err
